@@ -674,9 +674,17 @@ func c14KeyPairs() fw.Result {
 			t2 = append(t2, []any{x, y})
 		}
 	}
-	for _, c := range []cfgT{{"SELECT acc_count(v) OVER (PARTITION BY a) AS c FROM stream", t1}, {"SELECT acc_count(v) OVER (PARTITION BY a, b) AS c FROM stream", t2}} {
+	// plus the text tuples that collide under any "join the components with a middle" encoding (each only against its partner)
+	nT2 := len(t2)
+	for _, pr := range middlePairs() {
+		t2 = append(t2, []any{pr[0][0], pr[0][1]}, []any{pr[1][0], pr[1][1]})
+	}
+	for ci, c := range []cfgT{{"SELECT acc_count(v) OVER (PARTITION BY a) AS c FROM stream", t1}, {"SELECT acc_count(v) OVER (PARTITION BY a, b) AS c FROM stream", t2}} {
 		for i := 0; i < len(c.tuples); i++ {
 			for j := i + 1; j < len(c.tuples); j++ {
+				if ci == 1 && j >= nT2 && !(i == j-1 && (j-nT2)%2 == 1) {
+					continue
+				}
 				var rows []Row
 				for n := 0; n < 4; n++ {
 					t := c.tuples[[]int{i, j}[n%2]]
